@@ -26,7 +26,7 @@ MEM_HEADROOM = 3 * GIB           # address space the child may add on top of wha
 FILE_LIMIT = 512 << 20           # largest file the child may write (protects the scratch disk)
 DEFAULT_STEP_BUDGET = 3_000_000  # counted steps; the largest legitimate run of the sweep needs < 5 % of this
 
-COUNTERS = ("p2_visits", "p3_visits", "state_runs", "frames", "taint_pops")
+COUNTERS = ("p2_visits", "p3_visits", "state_runs", "frames", "taint_pops", "space_adds")
 
 
 def warm():
@@ -76,6 +76,14 @@ def _install_counters(box, step_budget, on_budget):
         bump("frames")
         return orig_add(self, element)
     cs.ComputeFrameStack.add = add
+
+    # every symbol / abstract state that enters a symbol-state space (P1 tables, P2 frames, the global P3 space)
+    orig_space_add = cs.SymbolStateSpace.add
+
+    def space_add(self, item):
+        bump("space_adds")
+        return orig_space_add(self, item)
+    cs.SymbolStateSpace.add = space_add
 
     class CountingDeque(collections.deque):
         def popleft(self):
@@ -173,6 +181,17 @@ def run_project(files, enable_p2, wall_s=120.0, step_budget=DEFAULT_STEP_BUDGET,
         try:
             os.close(rfd)
             os.setsid()
+            # never outlive the check: die with the parent and, as a last resort, on an alarm
+            signal.signal(signal.SIGALRM, signal.SIG_DFL)
+            signal.alarm(int(wall_s) + 60)
+            import ctypes
+            ctypes.CDLL(None).prctl(1, signal.SIGKILL)   # PR_SET_PDEATHSIG
+            if os.getppid() == 1:
+                os._exit(4)
+            # whatever native libraries print when they run out of memory does not belong in the report
+            devnull = os.open(os.devnull, os.O_WRONLY)
+            os.dup2(devnull, 1)
+            os.dup2(devnull, 2)
         except Exception:
             pass
         _child(wfd, files, enable_p2, base, step_budget, mem_headroom, count_calls)
@@ -180,6 +199,7 @@ def run_project(files, enable_p2, wall_s=120.0, step_budget=DEFAULT_STEP_BUDGET,
     os.close(wfd)
     buf = b""
     status = None
+    wstatus = None
     try:
         deadline = t0 + wall_s
         while True:
@@ -196,9 +216,10 @@ def run_project(files, enable_p2, wall_s=120.0, step_budget=DEFAULT_STEP_BUDGET,
                 if buf.endswith(b"\n"):
                     break
             else:
-                done, _ = os.waitpid(pid, os.WNOHANG)
+                done, st = os.waitpid(pid, os.WNOHANG)
                 if done:
                     # child is gone; drain what is left
+                    wstatus = st
                     while True:
                         r, _, _ = select.select([rfd], [], [], 0)
                         if not r:
@@ -211,6 +232,17 @@ def run_project(files, enable_p2, wall_s=120.0, step_budget=DEFAULT_STEP_BUDGET,
                     break
     finally:
         os.close(rfd)
+        if pid and status != "watchdog":
+            # the child has answered or closed the pipe: give it a moment to exit so that its status is known
+            for _ in range(60):
+                try:
+                    done, st = os.waitpid(pid, os.WNOHANG)
+                except ChildProcessError:
+                    done, st = pid, None
+                if done:
+                    wstatus, pid = st, 0
+                    break
+                time.sleep(0.05)
         if pid:
             try:
                 os.killpg(pid, signal.SIGKILL)
@@ -227,12 +259,16 @@ def run_project(files, enable_p2, wall_s=120.0, step_budget=DEFAULT_STEP_BUDGET,
     elapsed = round(time.time() - t0, 3)
     if status == "watchdog":
         return {"status": "watchdog", "counters": {}, "elapsed_s": elapsed}
+    how = None
+    if wstatus is not None:
+        how = ("signal %d" % os.WTERMSIG(wstatus)) if os.WIFSIGNALED(wstatus) else ("exit %d" % os.WEXITSTATUS(wstatus))
     line = buf.decode("utf-8", "replace").strip().splitlines()
     if not line:
-        return {"status": "killed", "counters": {}, "elapsed_s": elapsed}
+        return {"status": "killed", "counters": {}, "elapsed_s": elapsed, "how": how}
     try:
         out = json.loads(line[-1])
     except Exception:
-        return {"status": "killed", "counters": {}, "elapsed_s": elapsed, "raw": line[-1][:200]}
+        return {"status": "killed", "counters": {}, "elapsed_s": elapsed, "raw": line[-1][:200], "how": how}
     out["elapsed_s"] = elapsed
+    out["how"] = how
     return out
